@@ -23,7 +23,9 @@ POOL = ["t", "e", "r", "c", "l", "n", "f", "i", "o", "g", "h", "u", "T", "E", "X
         # names of keyword arguments of the xarray / numpy / dask methods a dimension name could be splatted into
         "drop", "indexers", "missing_dims", "new_name_or_name_dict", "dim", "axis", "name", "data", "other", "keep_attrs",
         "kwargs", "self", "mode", "pad_width", "constant_values", "chunks", "coords", "dims", "variable", "skipna", "fill_value",
-        "boundary", "to", "func", "da", "grid"]
+        "boundary", "to", "func", "da", "grid",
+        # identifiers with letters outside ASCII (Python identifiers, matched by \w)
+        "\u03be", "\u03b7_c", "\u00e9ta", "\u00dcbergang", "\u0434\u043e\u043b\u0433\u043e\u0442\u0430"]
 # keyword names of DataArray.isel: xarray itself cannot take a dimension of such a name through squeeze()/isel(**...),
 # so they are left out for the face-connected families (whose assembly squeezes strips), not a matter of xgcm
 XARRAY_RESERVED = ("self", "drop", "indexers", "missing_dims")
